@@ -185,6 +185,11 @@ pub struct ExhaustCase {
     pub levels: Vec<Level>,
     pub tag: u64,
     pub via_key: bool,
+    /// 0 the last leaf of a canonical blob; 1 the last leaf of a blob with a stray valid-looking
+    /// parameter byte behind the end marker; 2 a counter one beyond the last leaf; 3 a counter far
+    /// beyond it (bits above the total height set)
+    #[serde(default)]
+    pub variant: u8,
 }
 
 /// The exhausted private key handed to the callback contains no seed bytes.
@@ -192,12 +197,26 @@ pub fn check_exhaust(c: &ExhaustCase) -> Verdict {
     let n = c.hash.n();
     let seed = secret_bytes(c.tag, n);
     let total: u64 = 1u64 << c.levels.iter().map(|l| l.1).sum::<u32>();
-    let blob = hss::private_key_blob(&c.levels, total - 1, &seed);
+    let mut blob = hss::private_key_blob(&c.levels, total - 1, &seed);
+    match c.variant {
+        1 if c.levels.len() <= 6 => blob[8 + c.levels.len() + 1] = [0x54u8, 0x9e, 0x61][c.tag as usize % 3],
+        2 => blob[..8].copy_from_slice(&total.to_be_bytes()),
+        3 => blob[..8].copy_from_slice(&(total + 1 + (1u64 << 40) + (c.tag << 48)).to_be_bytes()),
+        _ => {}
+    }
     let next: Option<Vec<u8>> = if c.via_key {
-        libapi::sign_via_key(c.hash, b"last", &blob, libapi::KeyEntry::TrySign, None).1
+        let (o, after) = libapi::sign_via_key(c.hash, b"last", &blob, libapi::KeyEntry::TrySign, None);
+        if c.variant != 0 && !o.is_ok() {
+            // refused: nothing was handed over (the caller's own object is outside this oracle)
+            return pass(format!("exhaust-variant{}|refused", c.variant), true);
+        }
+        after
     } else {
         let (o, calls) = libapi::sign(c.hash, b"last", &blob, Cb::Accept, None);
-        if !o.is_ok() {
+        if c.variant != 0 && !o.is_ok() && calls.is_empty() {
+            return pass(format!("exhaust-variant{}|refused", c.variant), true);
+        }
+        if !o.is_ok() && calls.is_empty() {
             return fail(sign_failure_key(c.hash, &c.levels, o.kind()), format!("{:?}", o.panic_msg()));
         }
         calls.first().cloned()
@@ -255,7 +274,10 @@ pub fn run(ctx: &Ctx) {
     for h in ALL_HASHES {
         for s in &shapes {
             for t in 0..ctx.tier.pick(6u64, 40u64) {
-                ex.push(ExhaustCase { hash: h, levels: s.clone(), tag: t, via_key: t % 2 == 1 });
+                ex.push(ExhaustCase { hash: h, levels: s.clone(), tag: t, via_key: t % 2 == 1, variant: 0 });
+                if s.len() <= 4 {
+                    ex.push(ExhaustCase { hash: h, levels: s.clone(), tag: t, via_key: t % 2 == 0, variant: 1 + (t % 3) as u8 });
+                }
             }
         }
     }
